@@ -249,42 +249,42 @@ Print Assumptions c27_fsm_unknown_type_rejected.
 Theorem c27_model_satisfies_monitor : forall b e,
   wf exchangeBatchResult b = true -> EncodeExchangeBatchResult b = Some e ->
   C27_monitor (C27Case 0 e true (PReplResult (Some b) (DecodeExchangeBatchResult e)) false
-                       (model_trunc_ok DecodeExchangeBatchResult e) 0 0) = 0.
+                       (model_trunc_ok DecodeExchangeBatchResult e) 0 0 0) = 0.
 Proof. exact result_model_satisfies_monitor. Qed.
 Print Assumptions c27_model_satisfies_monitor.
 
 (* truncation mode *)
 Theorem c27_model_prefix_satisfies_monitor : forall b e p s,
   wf exchangeBatchResult b = true -> EncodeExchangeBatchResult b = Some e -> e = p ++ s -> s <> [] ->
-  C27_monitor (C27Case 1 p true (PReplResult None (DecodeExchangeBatchResult p)) false [] 0 0) = 0.
+  C27_monitor (C27Case 1 p true (PReplResult None (DecodeExchangeBatchResult p)) false [] 0 0 0) = 0.
 Proof. exact result_prefix_satisfies_monitor. Qed.
 Print Assumptions c27_model_prefix_satisfies_monitor.
 
 (* mutated / arbitrary bytes *)
 Theorem c27_model_bytes_satisfy_monitor : forall mode data,
   2 <= mode ->
-  C27_monitor (C27Case mode data true (PReplResult None (DecodeExchangeBatchResult data)) false [] 0 0) = 0.
+  C27_monitor (C27Case mode data true (PReplResult None (DecodeExchangeBatchResult data)) false [] 0 0 0) = 0.
 Proof. exact result_bytes_satisfy_monitor. Qed.
 Print Assumptions c27_model_bytes_satisfy_monitor.
 
 Theorem c27_model_satisfies_monitor_batch : forall bits b e,
   wf (exchangeBatch (valid_of bits)) b = true -> EncodeExchangeBatch (valid_of bits) b = Some e ->
   C27_monitor (C27Case 0 e true (PReplBatch bits (Some b) (DecodeExchangeBatch (valid_of bits) e)) false
-                       (model_trunc_ok (DecodeExchangeBatch (valid_of bits)) e) 0 0) = 0.
+                       (model_trunc_ok (DecodeExchangeBatch (valid_of bits)) e) 0 0 0) = 0.
 Proof. exact batch_model_satisfies_monitor. Qed.
 Print Assumptions c27_model_satisfies_monitor_batch.
 
 Theorem c27_model_satisfies_monitor_forward : forall r e,
   forward_wf r = true -> EncodeForwardRequest r = Some e ->
   C27_monitor (C27Case 0 e true (PForward (Some r) (DecodeForwardRequest e)) false
-                       (model_trunc_ok DecodeForwardRequest e) 0 0) = 0.
+                       (model_trunc_ok DecodeForwardRequest e) 0 0 0) = 0.
 Proof. exact forward_model_satisfies_monitor. Qed.
 Print Assumptions c27_model_satisfies_monitor_forward.
 
 Theorem c27_model_satisfies_monitor_channels : forall vx e,
   wf f_append_batch vx = true -> encode_frame f_append_batch vx = Some e ->
   C27_monitor (C27Case 0 e true (PChAppendBatch (Some vx) (decode_frame f_append_batch e)) false
-                       (model_trunc_ok (decode_frame f_append_batch) e) 0 0) = 0.
+                       (model_trunc_ok (decode_frame f_append_batch) e) 0 0 0) = 0.
 Proof. exact append_batch_model_satisfies_monitor. Qed.
 Print Assumptions c27_model_satisfies_monitor_channels.
 
@@ -292,7 +292,7 @@ Theorem c27_model_satisfies_monitor_fsm : forall c e,
   command_wf c = true -> encodeCommand c = Some e ->
   C27_monitor (C27Case 0 e true (PFsm (Some c) (decodeCommand e)) false
                        (model_trunc_ok (fun p => match decodeCommand p with
-                                                  | Some (CmdOther _) => None | r => r end) e) 0 0) = 0.
+                                                  | Some (CmdOther _) => None | r => r end) e) 0 0 0) = 0.
 Proof. exact fsm_model_satisfies_monitor. Qed.
 Print Assumptions c27_model_satisfies_monitor_fsm.
 
@@ -330,7 +330,7 @@ Print Assumptions c27_channels_roundtrip_refuted.
 Theorem c27_k1_witness_has_code_2 :
   exists e, encode_frame f_append_batch (k1_request true) = Some e /\
     C27_monitor (C27Case 0 e true (PChAppendBatch (Some (k1_request true)) (decode_frame f_append_batch e)) false
-                         [] 0 0) = 2.
+                         [] 0 0 0) = 2.
 Proof. exact k1_witness_has_code_2. Qed.
 Print Assumptions c27_k1_witness_has_code_2.
 
